@@ -351,7 +351,9 @@ func init() {
 			emit(w.Raw)
 			return
 		}
-		C := func(m, at, rt, em string, gs ...string) swCaller { return swCaller{Method: m, Access: at, Refresh: rt, Email: em, Groups: gs} }
+		C := func(m, at, rt, em string, gs ...string) swCaller {
+			return swCaller{Method: m, Access: at, Refresh: rt, Email: em, Groups: gs}
+		}
 		prelude := []swCase{
 			{"proxy", []swCaller{C("validate", "tokA", "rA", "a@x.io", "g1"), C("validate", "tokA", "rA", "a@x.io", "g1")}, false},
 			{"proxy", []swCaller{C("validate", "tokA", "rA", "a@x.io", "g1"), C("validate", "tokB", "rB", "b@x.io", "g1"), C("validate", "tokA", "rA", "a@x.io", "g1")}, false},
